@@ -14,12 +14,12 @@ class C07(Pipeline):
           ("EvmAttest_mc", "EvmAttest_handover_big", ("thorough",))]
     gens = [Gen("EvmAttestGen", "EvmAttestGen_cover", "bfs", tiers=("quick",), timeout=300),
             Gen("EvmAttestGen", "EvmAttestGen_cover_big", "bfs", tiers=("thorough",), timeout=1200),
-            Gen("EvmAttestGen", "EvmAttestGen_sim", "simulate", num=80, depth=18, tiers=("quick",)),
+            Gen("EvmAttestGen", "EvmAttestGen_sim", "simulate", num=60, depth=18, tiers=("quick",)),
             Gen("EvmAttestGen", "EvmAttestGen_sim", "simulate", num=1500, depth=18, tiers=("thorough",), timeout=1200)]
     driver_pkg = "drivers/evmattest"
     driver_test = "TestDriveEvmAttest"
     trace_module = "EvmAttestTrace"
-    quick_cap = 4500
+    quick_cap = 8000
     thorough_cap = 14000
     assumptions = [
         "messages are really enqueued through the evm keeper (AddSmartContractExecutionToConsensus, PublishSnapshotToAllChains, SetAsCompassContract, CreateUserSmartContractDeployment), signed through the consensus msg server, attested through AddEvidence and the consensus module's EndBlock (E1 keeper wiring plus the two wirings app.go adds: EvmKeeper.Skyway and the attested-message listeners)",
@@ -103,7 +103,7 @@ class C07(Pipeline):
             prev = e
         self._stats = st
         accepted = set(st["accepted"])
-        self._missing = sorted({"slc", "valset", "usc", "handover", "uusc"} - accepted)
+        self._missing = sorted({"slc", "valset", "usc", "uscn", "handover", "uusc"} - accepted)
 
     def binding_selftest(self, events, tier):
         """1. pretend a rejected (corrupted / failed / replayed) winning transaction produced the success effect,
